@@ -755,7 +755,8 @@ fn judge_callers(case: &Case, obs: &Obs, single: &Obs, l: &mut Local) {
 // ------------------------------------------------------------------------------------------
 // families
 
-fn behaviour_srv(b: u64, i: usize, tcp_available: bool, trust: bool, srtt: u32) -> Srv {
+/// `tcp_mode`: 0 = UDP+TCP, TCP reachable; 1 = UDP+TCP, TCP connection refused; 2 = configured with UDP only.
+fn behaviour_srv(b: u64, i: usize, tcp_mode: u64, trust: bool, srtt: u32) -> Srv {
     let f = fast(i, false);
     let ft = fast(i, true);
     let udp = match b {
@@ -780,10 +781,42 @@ fn behaviour_srv(b: u64, i: usize, tcp_available: bool, trust: bool, srtt: u32) 
     };
     Srv {
         udp,
-        tcp: Some(tcp),
-        tcp_conn: Script::constant(if tcp_available { ConnStep::Ok } else { ConnStep::Refused(ft) }),
+        tcp: if tcp_mode == 2 { None } else { Some(tcp) },
+        tcp_conn: Script::constant(if tcp_mode == 0 { ConnStep::Ok } else { ConnStep::Refused(ft) }),
         trust_nx: trust,
         srtt,
+    }
+}
+
+const TCP_MODES: [&str; 3] = ["udp+tcp", "udp+tcp(tcp-refused)", "udp-only"];
+
+/// Per-server protocol modes of a coarse case: for n <= 3 every assignment of the three modes
+/// (digit in base 3 per server); for n = 4 the patterns {all reachable, all refused, first server
+/// UDP-only}.
+fn tcp_modes(n: usize, digit: u64) -> Vec<u64> {
+    if n <= 3 {
+        let mut d = digit;
+        (0..n)
+            .map(|_| {
+                let m = d % 3;
+                d /= 3;
+                m
+            })
+            .collect()
+    } else {
+        match digit {
+            0 => vec![0; n],
+            1 => vec![1; n],
+            _ => (0..n).map(|i| if i == 0 { 2 } else { 0 }).collect(),
+        }
+    }
+}
+
+fn tcp_radix(n: usize) -> u64 {
+    if n <= 3 {
+        3u64.pow(n as u32)
+    } else {
+        3
     }
 }
 
@@ -807,7 +840,7 @@ fn coarse_cases(n: usize, d: &[u64]) -> Vec<Case> {
     let beh = &d[..n];
     let strat = d[n];
     let conc = d[n + 1] as usize + 1;
-    let tcp_available = d[n + 2] == 0;
+    let modes = tcp_modes(n, d[n + 2]);
     // strategies: 0 user, 1..=n roundrobin with r = strat-1 warm-ups, n+1 / n+2 query statistics
     let (strategy, warmups, srtt_desc) = if strat == 0 {
         ("user", 0, false)
@@ -826,7 +859,7 @@ fn coarse_cases(n: usize, d: &[u64]) -> Vec<Case> {
                     None => true,
                 };
                 let srtt = if srtt_desc { 10 + 3 * (n - i) as u32 } else { 10 + 3 * i as u32 };
-                behaviour_srv(beh[i], i, tcp_available, trust, srtt)
+                behaviour_srv(beh[i], i, modes[i], trust, srtt)
             })
             .collect();
         out.push(Case::single("coarse", servers, strategy, warmups, conc));
@@ -913,18 +946,20 @@ fn refine_configs(thorough: bool) -> Vec<Case> {
                 if n == 1 && strategy != "user" {
                     continue;
                 }
-                // tcp mode: 0 configured, 1 not configured; trust: all / none; busy runs: a
-                // server that is busy k times before following its script
-                for tcp_mode in [0, 1] {
+                // which servers are configured with UDP only (every subset for n <= 3; none / all /
+                // first / last for n = 4); trust: all / none; busy runs: a server that is busy k
+                // times before following its script
+                let masks: Vec<u32> = if n <= 3 { (0..(1u32 << n)).collect() } else { vec![0, (1 << n) - 1, 1, 1 << (n - 1)] };
+                for udp_only in masks {
                     for trust in [true, false] {
                         for busy_run in [0usize, 2, 5] {
-                            if busy_run > 0 && (tcp_mode == 1 || !trust || strategy != "user") {
+                            if busy_run > 0 && (udp_only != 0 || !trust || strategy != "user") {
                                 continue;
                             }
                             let servers = (0..n)
                                 .map(|i| Srv {
                                     udp: Script { steps: if i == 0 { vec![Step::Busy(0); busy_run] } else { vec![] }, rest: Step::Answer(fast(i, false)) },
-                                    tcp: if tcp_mode == 0 { Some(Script::constant(Step::Answer(fast(i, true)))) } else { None },
+                                    tcp: if udp_only & (1 << i) == 0 { Some(Script::constant(Step::Answer(fast(i, true)))) } else { None },
                                     tcp_conn: Script::constant(ConnStep::Ok),
                                     trust_nx: trust,
                                     srtt: 10 + 3 * i as u32,
@@ -949,7 +984,7 @@ fn caller_scenarios(thorough: bool) -> Vec<(Vec<Srv>, usize)> {
         beh.iter()
             .enumerate()
             .map(|(i, b)| {
-                let mut s = behaviour_srv(*b % 10, i, true, *b < 10, 10 + 3 * i as u32);
+                let mut s = behaviour_srv(*b % 10, i, 0, *b < 10, 10 + 3 * i as u32);
                 if *b % 10 == 4 {
                     // an I/O error that takes a while: the lookup is mid-flight for longer
                     s.udp = Script::constant(Step::IoErr(SLOW / 2));
@@ -1083,10 +1118,10 @@ fn main() {
     ctx.set_rule(
         "(i) every assignment of {answer, NXDOMAIN, truncated-then-TCP-answer, timeout, io-error, busy-then-answer} to n=1..4 servers x \
          {UserProvidedOrder, RoundRobin after 0..n-1 earlier lookups, QueryStatistics with ascending/descending pinned SRTT} x \
-         num_concurrent_reqs {1,2,3} x TCP {available, connection refused} x trust_negative_responses of every NXDOMAIN server; \
+         num_concurrent_reqs {1,2,3} x per-server protocol set {UDP+TCP reachable, UDP+TCP with TCP refused, UDP only} (every assignment for n<=3; all-reachable / all-refused / first-server-UDP-only for n=4) x trust_negative_responses of every NXDOMAIN server; \
          (ii) every schedule with <= d deviations (d=2 quick, 3 thorough) from 'every exchange is answered fast' over the alphabet \
          {answer 0.6T, NXDOMAIN, truncated, silent(>T), io-error fast/0.6T, reset, busy, SERVFAIL, REFUSED, NODATA, case-mismatch; TCP connect refused/timeout} \
-         under static configurations n x conc x strategy x TCP configured/not x trust x busy runs {0,2,5}, each followed by a second lookup on the same pool; \
+         under static configurations n x conc x strategy x every subset of UDP-only servers (n<=3) x trust x busy runs {0,2,5}, each followed by a second lookup on the same pool; \
          (iii) k in {2,3} identical callers + one different query, arrival and at most one cancellation (creator or waiter) at the instants \
          just before/after every upstream event of the scenario, plus arrival just after completion and a follow-up after quiescence. \
          timeout = 1000 ms virtual. Oracle: completion - start <= timeout; result sound (answer produced by a completed exchange, never TC when TCP is healthy); \
@@ -1108,7 +1143,7 @@ fn main() {
         let mut rad: Vec<u64> = vec![nbeh; n];
         rad.push(n as u64 + 3); // strategies
         rad.push(3); // conc
-        rad.push(2); // tcp
+        rad.push(tcp_radix(n)); // per-server protocol modes
         let od = Odometer::new(&rad);
         let space = od.space();
         total_space += space;
@@ -1126,7 +1161,7 @@ fn main() {
                     l.outcome("selftest:replayed-identically");
                 }
                 if i % 20011 == 0 {
-                    l.sample(json!({"family": "coarse", "behaviours": d[..n].iter().map(|b| BEHAVIOURS[*b as usize]).collect::<Vec<_>>(), "strategy": case.strategy, "warmups": case.warmups, "conc": case.conc, "tcp_available": d[n + 2] == 0,
+                    l.sample(json!({"family": "coarse", "behaviours": d[..n].iter().map(|b| BEHAVIOURS[*b as usize]).collect::<Vec<_>>(), "strategy": case.strategy, "warmups": case.warmups, "conc": case.conc, "protocols": tcp_modes(n, d[n + 2]).iter().map(|m| TCP_MODES[*m as usize]).collect::<Vec<_>>(),
                         "result": obs.callers[0].res.as_ref().map(|r| r.class()), "elapsed_ms": obs.callers[0].end}));
                 }
             }
